@@ -38,6 +38,30 @@ def run(ctx):
     shared.eligible_bucket_rules(ctx, "R9", "invoke")
     # ---- R7 the task of an invoked service is owned by the invoking state ------------------------
     shared.background_tasks_owned(ctx, "R7", only_funcs={"_invoke_service"})
+    # ---- R10 sync engine: done.invoke of a child machine is reported only if the child reached a top-level final state ----
+    from sa.util import canon_atom as _ca
+    qd = p.cls("SyncInterpreter").methods.get("_queue_actor_done")
+    if qd is not None:
+        sends = [x for x in own_nodes(qd.node) if isinstance(x, ast.Call) and isinstance(x.func, ast.Attribute) and x.func.attr == "send" and norm(x.func.value) == "self"]
+        if c.expect("R10", "completion report in SyncInterpreter._queue_actor_done", len(sends), 1, qd, "_queue_actor_done no longer sends done.invoke: onDone of an invoked child machine never fires"):
+            flags = {}
+            for a in own_nodes(qd.node):
+                if isinstance(a, ast.Assign) and isinstance(a.targets[0], ast.Name) and isinstance(a.value, ast.Call) and norm(a.value.func) == "any" and a.value.args \
+                        and isinstance(a.value.args[0], ast.GeneratorExp):
+                    flags[a.targets[0].id] = a.value.args[0]
+            for x in sends:
+                at = [_ca(a_, pol) for a_, pol in guards_at(qd, x)]
+                used = [t[1] for t in at if t[0] == "truthy" and t[1] in flags and t[3] is True]
+                okf = False
+                for fv in used:
+                    elt = flags[fv].elt
+                    parts = elt.values if isinstance(elt, ast.BoolOp) and isinstance(elt.op, ast.And) else []
+                    shp = [_ca(z) for z in parts]
+                    okf = any(t[0] == "truthy" and t[1].endswith(".is_final") and t[3] for t in shp) and \
+                        any(t[0] in ("is", "==") and t[3] and any(z.endswith(".parent") for z in (t[1], t[2])) and any(z.endswith(".machine") for z in (t[1], t[2])) for t in shp)
+                c.ob("R10", okf, qd, "done-only-after-top-level-final", "done.invoke is sent only when a final child of the child's root is active" if okf else
+                     f"the completion report is guarded by {at}: it must be under 'some active node is final and its parent is the child's root' - otherwise a child "
+                     f"that was stopped because the invoking state was left reports success (a zombie result drives onDone)", x)
     # ---- R1 one start per activation -----------------------------------------------
     for v in VIEWS:
         r = roles(ctx, v)
